@@ -1,6 +1,6 @@
 (* C14 (set half) — non-vacuity examples for Props.v *)
-From Coq Require Import NArith List Bool.
-From FV Require Import C14.Model C14.Proofs C14.SetObs C14.SetRange.
+From Coq Require Import NArith List Bool Lia Sorting.Sorted.
+From FV Require Import C14.Model C14.Proofs C14.SetObs C14.SetDom C14.SetRange C14.SetRangeU.
 Import ListNotations.
 Open Scope N_scope.
 
@@ -40,3 +40,22 @@ Proof. vm_compute. reflexivity. Qed.
 Example c14_ex_bounded_nonvacuous : (46000 <? N.of_nat (length (all_seqs 3 (all_ranges 5)))) = true /\
   existsb (fun ins => match rs_extend [] ins with [(1, 5)] => true | _ => false end) (all_seqs 3 (all_ranges 5)) = true.
 Proof. vm_compute. split; reflexivity. Qed.
+
+(* the round-1 bounded RangeSet statements, kept as evaluated examples (complete finite domains) *)
+Example c14_ex_rangeset_canonical_bounded : forall ins, In ins (all_seqs 3 (all_ranges 5)) -> canon_ok 5 ins = true.
+Proof. exact rangeset_canonical_bounded_all. Qed.
+Example c14_ex_rangeset_intersection_bounded : forall p,
+  In p (list_prod (all_seqs 2 (all_ranges 3)) (all_seqs 2 (all_ranges 3))) -> inter_ok 3 p = true.
+Proof. exact rangeset_intersection_bounded_all. Qed.
+(* hypotheses of the unbounded RangeSet theorems are inhabited by a non-trivial instance *)
+Example c14_ex_canon : canon [(0, 8); (10, 13); (20, 30)] /\ cov [(0, 8); (10, 13); (20, 30)] 12 = true /\ cov [(0, 8); (10, 13); (20, 30)] 9 = false.
+Proof.
+  split; [|split; reflexivity]. split.
+  - repeat constructor; unfold far; cbn; reflexivity.
+  - repeat constructor; unfold okr; cbn; discriminate.
+Qed.
+(* domain-relative observation theorems: members / domain_list on a small domain; the inverted set B of ex_ops *)
+Example c14_ex_members_list : members 7 (fun v => negb (v =? 3)) = [0; 1; 2; 4; 5; 6; 7].
+Proof. vm_compute. reflexivity. Qed.
+Example c14_ex_ops_in_dom : Forall (op_in_dom 4294967295) ex_ops.
+Proof. repeat constructor; cbn; lia. Qed.
